@@ -33,11 +33,11 @@ def selectSize (r : Exec.X (List Row × List Field)) : Option (Nat × Nat) :=
   | .ok (rows, hdr) => some (rows.length, hdr.length)
   | _ => none
 
-theorem exCatalog_shapes : ((∃ a, exCatalogQuery.list = [⟨.star, a⟩]) ∨ isStar exCatalogQuery.list = false) ∧
-    ((∃ a, exCatalogJoin.list = [⟨.star, a⟩]) ∨ isStar exCatalogJoin.list = false) ∧
-    ((∃ a, exPagesQuery.list = [⟨.star, a⟩]) ∨ isStar exPagesQuery.list = false) ∧
+theorem exCatalog_shapes : (Exec.NoPanicP.ParsedShape exCatalogQuery) ∧
+    (Exec.NoPanicP.ParsedShape exCatalogJoin) ∧
+    (Exec.NoPanicP.ParsedShape exPagesQuery) ∧
     ¬ UserTables exCatalogQuery ∧ ¬ UserTables exCatalogJoin ∧ ¬ UserTables exPagesQuery :=
-  ⟨.inl ⟨[], rfl⟩, .inl ⟨[], rfl⟩, .inl ⟨[], rfl⟩, by decide +kernel, by decide +kernel, by decide +kernel⟩
+  ⟨by decide, by decide, by decide, by decide +kernel, by decide +kernel, by decide +kernel⟩
 
 /-- on the computed database `CREATE DATABASE; CREATE TABLE t (a INT)`: the seven rows of `sys_schema`
 under four columns; the join of the three page-table rows with them: seven rows under six columns; the
